@@ -79,6 +79,7 @@ b = "b"`,
 		`[empty]`,
 		``,
 	)
+	WithSub[iniProperty](f, iniParser, `k = "v"`)
 	f.Flat = func(n int) string {
 		var sb strings.Builder
 		for i := 0; i < n; i++ {
